@@ -148,6 +148,32 @@ Theorem C10_messages_keep_statics : forall c s now busy o,
 Proof. exact message_keeps_statics. Qed.
 Print Assumptions C10_messages_keep_statics.
 
+(** The configurations the server runs with are the ones Validate accepts
+    (start < end, gateway outside the pool, both ends inside the subnet: the
+    harness compares [valid_conf_b (conf_of ...)] with the real Validate on
+    generated configurations); they satisfy the premise [valid_conf] above. *)
+Theorem C10_validated_conf : forall c, valid_conf_b c = true <-> valid_conf c.
+Proof. exact valid_conf_b_spec. Qed.
+Print Assumptions C10_validated_conf.
+
+(** set_config (new, empty servers; table reloaded from the file) with a
+    configuration that keeps the gateway: the state satisfies the invariant
+    of the new configuration; with the same configuration it is a restart,
+    so the persistence, file and reservation theorems above apply.  From
+    there [C10_inv_from] carries the invariant along any further history. *)
+Theorem C10_set_config_inv : forall c c' s,
+  c_gw c' = c_gw c -> Inv c s -> FullInv c' (set_config c' s).
+Proof. exact set_config_full. Qed.
+Print Assumptions C10_set_config_inv.
+
+Theorem C10_set_config_same : forall c s, set_config c s = restart c s.
+Proof. exact set_config_same. Qed.
+Print Assumptions C10_set_config_same.
+
+Theorem C10_inv_from : forall c h s, hist_ok h -> FullInv c s -> FullInv c (run c h s).
+Proof. exact run_full. Qed.
+Print Assumptions C10_inv_from.
+
 (** Non-vacuity: a valid configuration and a history (the first pool address
     answers the probe and is block-listed) that reaches a table with a
     block-list entry, a static lease, two dynamic leases with names, a free
